@@ -140,6 +140,20 @@ fn script_for(svc: &str) -> Vec<Item> {
         "rlong" => vec![r(reconf(4))],
         "rshort" => vec![r(reconf(1))],
         "big" => vec![Item::Resp { len: 1840, optlen: 0, fb: None }],
+        "mid" => vec![Item::Resp { len: 300, optlen: 0, fb: None }],
+        "huge" => vec![Item::Resp { len: 5000, optlen: 0, fb: None }],
+        "xfr" => vec![
+            Item::Feedback(ServiceFeedback::BeginTransaction),
+            r(None),
+            r(None),
+            r(None),
+            r(None),
+            Item::Feedback(ServiceFeedback::EndTransaction),
+        ],
+        "fblong" => vec![
+            Item::Feedback(ServiceFeedback::Reconfigure { idle_timeout: Some(HALF * 4) }),
+            r(None),
+        ],
         "single" => vec![r(None)],
         "stream2" => vec![r(None), r(None)],
         "fail" => vec![Item::Fail],
@@ -181,6 +195,10 @@ fn run_conn(input: &Value) -> Value {
     // octets one poll_write of the mock transport accepts (0 = all)
     let chunk: usize = arg_value("--chunk").and_then(|s| s.parse().ok()).unwrap_or(0);
     let ops = input["ops"].as_array().cloned().unwrap_or_default();
+    // defaults: no explicit configuration at all; one half tick is then half
+    // of the *documented* idle / write timeout (30 s)
+    let defaults = input["defaults"].as_bool().unwrap_or(false);
+    let half = if defaults { Duration::from_secs(15) } else { HALF };
     let before = panics();
     let obs = rt().block_on(async move {
         let listener = MockListener::default();
@@ -193,12 +211,11 @@ fn run_conn(input: &Value) -> Value {
         cc.set_max_queued_responses(qcap);
         cfg.set_connection_config(cc);
         cfg.set_max_concurrent_connections(limit);
-        let srv = Arc::new(StreamServer::with_config(
-            listener.clone(),
-            VecBufSource,
-            st,
-            cfg,
-        ));
+        let srv = Arc::new(if defaults {
+            StreamServer::new(listener.clone(), VecBufSource, st)
+        } else {
+            StreamServer::with_config(listener.clone(), VecBufSource, st, cfg)
+        });
         let run = {
             let s = srv.clone();
             tokio::spawn(async move { s.run().await })
@@ -254,7 +271,8 @@ fn run_conn(input: &Value) -> Value {
                         h.add_credit(1);
                     }
                 }
-                "halftick" => tokio::time::advance(HALF).await,
+                "halftick" => tokio::time::advance(half).await,
+                "wait" => tokio::time::advance(Duration::from_millis(r as u64)).await,
                 "accepterr" => listener.accept_error(),
                 "abort" => {
                     if let Some(h) = ios.get(&c) {
@@ -305,6 +323,7 @@ fn run_conn(input: &Value) -> Value {
 fn run_dgram(input: &Value) -> Value {
     let ops = input["ops"].as_array().cloned().unwrap_or_default();
     let hint = opt_u16(&input["hint"]);
+    let defaults = input["defaults"].as_bool().unwrap_or(false);
     let before = panics();
     let obs = rt().block_on(async move {
         let sock = MockDgram::default();
@@ -312,7 +331,11 @@ fn run_dgram(input: &Value) -> Value {
         let st = Arc::new(stack(svc.clone()));
         let mut cfg = dgram::Config::new();
         cfg.set_max_response_size(hint);
-        let srv = Arc::new(DgramServer::with_config(sock.clone(), VecBufSource, st, cfg));
+        let srv = Arc::new(if defaults {
+            DgramServer::new(sock.clone(), VecBufSource, st)
+        } else {
+            DgramServer::with_config(sock.clone(), VecBufSource, st, cfg)
+        });
         let run = {
             let s = srv.clone();
             tokio::spawn(async move { s.run().await })
@@ -334,8 +357,11 @@ fn run_dgram(input: &Value) -> Value {
                         "short" => vec![idb[0], idb[1]],
                         "shortqr" => vec![idb[0], idb[1], 0x80],
                         "reply" => mk_query(id, 9 + r as usize, None, true),
-                        _ if op["svc"].as_str() == Some("big") => {
+                        _ if matches!(op["svc"].as_str(), Some("big") | Some("mid")) => {
                             mk_query(id, 9 + r as usize, Some(4096), false)
+                        }
+                        _ if op["svc"].as_str() == Some("huge") => {
+                            mk_query(id, 9 + r as usize, Some(65535), false)
                         }
                         _ => mk_query(id, 9 + r as usize, None, false),
                     };
@@ -377,6 +403,11 @@ fn main() {
         Some("size") => run_size(input),
         Some("conn") => run_conn(input),
         Some("dgram") => run_dgram(input),
+        Some("cfg") => {
+            let c = stream::Config::default();
+            json!({"max_concurrent_connections": c.max_concurrent_connections(),
+                   "accept_connections_at_max": c.accept_connections_at_max()})
+        }
         _ => json!({"bad_case": true}),
     });
 }
